@@ -361,8 +361,41 @@ OPS = {   # every property exercises the root specification with the calls IT ta
 }
 
 
+def quoted_scenarios(rnd, n):
+    """Targeted histories for the writer's quoting decision (C07): a parsed file that BEGINS with a section and holds values which
+    need their quotes (outer blanks, a comment character inside), next to plain ones in varying order; then group-less keys are set
+    (they are written first, so every later entry is emitted at another position than it is stored at); write, read back, dump."""
+    hs = []
+    pool = ['a="  two words  "', 'b="x # y"', "c=plain", 'd=" lead"', 'e="trail "', "f=p q", 'g="#"', "h="]
+    for i in range(n):
+        m = Mixed(rnd, 900 + i, ops={"read", "set", "write"})
+        m.script.append("mkdir %s" % hx(m.R + "/out"))
+        m.conv.append(None)
+        ents = rnd.sample(pool, rnd.randint(2, 5))
+        lines = ["[S]"] + ents[:len(ents) // 2 + 1] + (["[T]"] + ents[len(ents) // 2 + 1:] if len(ents) > 2 else [])
+        m.files.add("/f1.conf")
+        m.add("file %s %s" % (hx(m.R + "/f1.conf"), hx("\n".join(lines) + "\n")), None)
+        m.script.append("echo f")
+        m.conv.append(lambda ev, root, lines=lines: [{"e": "file", "path": codes("/f1.conf"), "lines": [codes(x) for x in lines]}])
+        m.add("readfile 1 %s x3d x23" % hx(m.R + "/f1.conf"), lambda ev, root: [{"e": "readfile", "h": 1, "path": codes("/f1.conf"), "delim": [61], "comment": [35], "rc": ev["rc"]}])
+        m.live.add(1)
+        for k in rnd.sample(["n1", "n2", "n3"], rnd.randint(1, 3)):
+            v = rnd.choice(["1", "x y", " z ", ""])
+            g = rnd.choice([None, "", "S"])
+            m.add("set String 1 %s %s %s" % (hx(g), hx(k), hx(v)), lambda ev, root, g=g, k=k, v=v: [{"e": "set", "h": 1, "g": opt(g), "k": opt(k), "v": opt(v), "rc": ev["rc"]}])
+        m.op_write(1)
+        f = "/out/w%d.conf" % m.nout
+        m.add("readfile 2 %s x3d x23" % hx(m.R + f), lambda ev, root, f=f: [{"e": "readfile", "h": 2, "path": codes(f), "delim": [61], "comment": [35], "rc": ev["rc"]}])
+        m.live.add(2)
+        m.op_dump(1); m.op_dump(2); m.op_free(1); m.op_free(2)
+        hs.append(m)
+    return hs
+
+
 def run_mixed(exe, rnd, n, verdict, pid, nops=(10, 60), comments=False):
     hs = [Mixed(rnd, i, ops=OPS.get(pid), comments=comments, errloc=(pid in ("C13", "ALL")), bad_rate=0.4 if pid == "C13" else (0.06 if pid == "ALL" else 0.0)).build(rnd.randint(*nops)) for i in range(n)]
+    if pid == "C07":
+        hs += quoted_scenarios(rnd, max(40, n // 3))
     res = core.run_cases(exe, [(i, h.script) for i, h in enumerate(hs)])
     events = []
     spans = []
